@@ -2,7 +2,8 @@
 PROP = "C03"
 LEVEL = "other"
 EXPLANATION = 'bounded stand-in: generated command trees x command lines compared with an independent walk/default-rule spec; deductive obligations on the resolver loops are being added'
-TARGETS = []
+from . import resolver_contracts as rc
+TARGETS = [rc.GAT]
 LEMMAS = []
 try:
     from .C03_bounded import bounded, BOUNDED_RULE  # noqa: F401
